@@ -42,6 +42,11 @@ CHECKS = {
          "All well-formed histories of <= 5 (thorough 6) operations over {declare int/const/qubit x, use x, assign x, gate-call x, open if/else/while/for x/case/default/gate(x)/def(x), close} for three two-name pools (user names; pi and the library gate h after include; the built-in U) are rendered as programs; the graph is walked in source order and every symbol reference is compared with the reference scope machine: resolved iff visible, same symbol iff same declaration, symbol name equals the identifier, unresolved uses marked MissingBinding, typed Undefined and reported exactly once on the identifier, duplicates marked AlreadyBound and reported exactly once with the name, scope stack back at depth 1. Reports reference states, transitions and traces; every trace runs on the implementation.",
          "Readings where the statement is silent are listed in the evidence assumptions. Hook oq3_verif for the depth.",
          "DESIGN.md section 7, C07"),
+ "C08": ("exploration",
+         "exhaustive target x value-form decision table for declarations and assignments; typing rules checked on every expression node of every resulting graph",
+         "Every scalar type spelling of the tier (16 quick, 26 thorough; const and non-const targets) x every value form (11 literal forms, variable / const variable / explicit cast / subroutine call of every type, measurement of qubit and register, arithmetic over every ordered pair of numeric operand types x 4 operators, unary minus) for declarations with initializer and for assignments. On every expression node: identifier type = symbol type, literal type = its class marked const, cast type = target, measurement type = bit shape of the operand, arithmetic node type = the library's common type with both operands of that type or cast to it. On the statement: value type equals the target up to const-ness (directly or via a cast to exactly the target) or a type diagnostic sits on it; conversions in the must-diagnose class (kind down the tower, negative literal to unsigned, to/from bit, bool, duration, angle of another kind, narrowing of a non-constant) carry a diagnostic.",
+         "Whether the common type is a correct join is C20. Over-diagnosis is not a violation. Two defects were repaired by fix: commits; one (integer imaginary literal typed int) is recorded.",
+         "DESIGN.md section 7, C08"),
  "C09": ("exploration",
          "exhaustive enumeration of a declaration-form x type x width x scope table; recorded symbol types compared with the declared ones computed by the harness",
          "Plain, const, input, output, loop-variable and subroutine-parameter declarations of 12 scalar type spellings with every width of the tier's set (thorough: 1..1024 and 2^k, 2^k+-1 up to 2^32-1), literal and through const identifiers of 6 integer types, in 8 scope kinds; qubit registers; out-of-range, negative, float, boolean, non-constant, input, loop-variable and undeclared designators (a diagnostic is required and the width must not be another number); every gate signature 0-4 x 1-4 with parameter and qubit types and the gates() listing with and without the standard library; every subroutine signature 0-4 parameters x 13 return types with DefStmt::return_type.",
